@@ -153,6 +153,13 @@ PROPS = {
         assumptions=['suspend(d) resumes at now + d and postpone() in the same time step (C01 theorems)', 'exact rational time'],
         partial=[],
     ),
+    'C20': dict(
+        gen=['Timing', 'Scope'], props=['C20', 'C02', 'Skeletons'], model=['Machine/Run', 'Machine/Step', 'Judge/Judges'], harness='c20',
+        trusted_base=KERNEL_TB + MACHINE_TB + ['templates: postpone/suspend/__await__ of conditions, Scope.__aexit__; the per-operation code paths are hand-modelled in Machine/Run.lean and tied by exact trace correspondence'],
+        assumptions=['an activity made runnable earlier in the same time step runs before a later-scheduled wake-up (C02 fifo_now)',
+                     'acquiring a free Lock is not among the operations the property lists and does not yield (documented in DESIGN.md)'],
+        partial=[],
+    ),
 }
 
 #: texts for MANIFEST.json (level, note, technique, DESIGN.md section)
@@ -293,4 +300,14 @@ MANIFEST_TEXT = {
         note='trusted: Lean kernel + standard axioms; translator; C01 for the meaning of suspend/postpone',
         technique='Lean 4 arithmetic induction over translated code + exact whole-machine differential traces + Lean trace judge',
         design_ref='6 (C14)'),
+    'C20': dict(
+        level='Lean 4 theorems for every world state: postpone() always hibernates the caller and queues its wake-up behind '
+              'everything already runnable (postpone_hibernates, with C02 fifo_now); each listed operation in a state where it '
+              'need not wait reduces to that postpone before completing (setFlag/sleep 0/setTracked/put/close/scope exit/'
+              'true-condition await/zero transfer lemmas). Table of every awaitable operation x 1-3 other runnable activities, and '
+              'random prefixes, run on the real code with a Lean judge requiring every other runnable activity to run between '
+              'the markers; exact whole-machine correspondence.',
+        note='trusted: Lean kernel + standard axioms; hand-written machine tied by correspondence; templates of timing.py/scope exit',
+        technique='Lean 4 proof over the frame machine + exact whole-machine differential traces + Lean trace judge',
+        design_ref='6 (C20)'),
 }
